@@ -144,6 +144,14 @@ func GenGroups(r *core.Rng, job string) []TG {
 				tw["__tmp_twin"] = "2"
 				tg.Targets = append(tg.Targets, tw)
 			}
+			if r.Intn(6) == 0 { // the same target discovered twice with different discovered labels (one entry per container port): equal after relabeling
+				nd := map[string]string{}
+				for k, v := range ls {
+					nd[k] = v
+				}
+				nd["__meta_kubernetes_pod_container_port_name"] = r.PickS("metrics", "http")
+				tg.Targets = append(tg.Targets, nd)
+			}
 			if r.Intn(6) == 0 { // exact duplicate inside the group
 				dup := map[string]string{}
 				for k, v := range ls {
